@@ -309,6 +309,90 @@ func (r *vfRun) Finish(minEvals int64, minCells int) {
 	}
 }
 
+// ---------------------------------------------------------------------------------------------------------
+// race log (GORACE log_path=$VERIF_RACELOG, halt_on_error=0): reports are appended by the runtime as they occur
+
+type vfRaceReport struct {
+	Text   string
+	Frames []string // function names + file:line of all stacks in the report
+}
+
+// vfRaceReports parses the report blocks written so far by this process.
+func vfRaceReports() []vfRaceReport {
+	base := os.Getenv("VERIF_RACELOG")
+	if base == "" {
+		return nil
+	}
+	files, _ := filepath.Glob(base + ".*")
+	var out []vfRaceReport
+	for _, f := range files {
+		b, err := os.ReadFile(f)
+		if err != nil {
+			continue
+		}
+		for _, blk := range strings.Split(string(b), "==================") {
+			if !strings.Contains(blk, "WARNING: DATA RACE") {
+				continue
+			}
+			r := vfRaceReport{Text: strings.TrimSpace(blk)}
+			for _, l := range strings.Split(blk, "\n") {
+				l = strings.TrimSpace(l)
+				if strings.HasPrefix(l, "/") || strings.Contains(l, "()") {
+					r.Frames = append(r.Frames, l)
+				}
+			}
+			out = append(out, r)
+		}
+	}
+	return out
+}
+
+// RaceCheck inspects the race log. Reports with a frame matching one of the given substrings are violations of
+// this run's property (sig); all others are printed as notes (the testing package fails the binary on any report,
+// which ./check turns into INCONCLUSIVE unless a VIOLATION line exists).
+func (r *vfRun) RaceCheck(sig string, frameSubstr ...string) {
+	reps := vfRaceReports()
+	r.Count("race_reports", int64(len(reps)))
+	seen := map[string]bool{}
+	for _, rep := range reps {
+		mine := false
+		for _, fr := range rep.Frames {
+			if strings.Contains(fr, "zz_verif_") {
+				continue
+			}
+			for _, sub := range frameSubstr {
+				if strings.Contains(fr, sub) {
+					mine = true
+				}
+			}
+		}
+		// de-duplicate by the set of repo frames with line numbers stripped
+		var key []string
+		for _, fr := range rep.Frames {
+			if strings.Contains(fr, "/repo/") && !strings.Contains(fr, "zz_verif_") {
+				key = append(key, strings.SplitN(fr, ":", 2)[0])
+			}
+		}
+		k := strings.Join(key, "|")
+		if seen[k] {
+			continue
+		}
+		seen[k] = true
+		if mine && sig != "" {
+			r.Violation(sig, "race detector report: "+vfTrunc(strings.Join(key, " "), 300), map[string]interface{}{"report": vfTrunc(rep.Text, 8000)})
+		} else {
+			p := r.writeWitnessLocked(sig+":unattributed-race", rep.Text)
+			fmt.Printf("NOTE race report not attributed to %s (kept in %s): %s\n", r.ID, p, vfTrunc(k, 200))
+		}
+	}
+}
+
+func (r *vfRun) writeWitnessLocked(sig, text string) string {
+	r.mu.Lock()
+	defer r.mu.Unlock()
+	return r.writeWitness(sig, "race report", text, "note-")
+}
+
 // vfParallel runs f(i) for i in [0,n) on w workers.
 func vfParallel(n, w int, f func(i int)) {
 	if w < 1 {
